@@ -7,6 +7,7 @@ import (
 	"path/filepath"
 	"sort"
 	"strings"
+	"sync"
 	"time"
 
 	"github.com/taskctl/taskctl/pkg/runner"
@@ -333,8 +334,84 @@ func c08Case(col *Collector, s c08Spec, tag string) {
 	col.Add(cs)
 }
 
+// a runner that returns at once and records what every execution was given
+type seeRunner struct {
+	mu  sync.Mutex
+	bad []string
+	n   int
+}
+
+func (r *seeRunner) Run(t *task.Task) error {
+	who, _ := t.Env.Get("WHO").(string)
+	a, _ := t.Env.Get("A").(string)
+	x, _ := t.Variables.Get("x").(string)
+	r.mu.Lock()
+	r.n++
+	if (a != who || x != who || t.Dir != "/dir/"+who) && len(r.bad) < 3 {
+		r.bad = append(r.bad, fmt.Sprintf("execution of stage %s was given env A=%q, variable x=%q, dir %q", who, a, x, t.Dir))
+	}
+	r.mu.Unlock()
+	return nil
+}
+func (r *seeRunner) Cancel() {}
+func (r *seeRunner) Finish() {}
+
+// many stages of several pipelines share one task and finish / start at the same instant, over and over: every
+// execution is given exactly its own stage's overrides, and the task itself keeps its own settings
+func stageCopyStressCase(col *Collector, d time.Duration) {
+	cs := Case{Tags: []string{"copy-stress"}, NonTrivial: true,
+		Replay: fmt.Sprintf("3 pipelines x 2 chains x 3 stages share one task (env A, variable x, dir overridden by every stage), instant runner, no pause, repeated for %v", d)}
+	shared := task.NewTask()
+	shared.Name = "shared"
+	shared.Env = variables.FromMap(map[string]string{"A": "task", "WHO": "task"})
+	shared.Variables = variables.FromMap(map[string]string{"x": "task"})
+	shared.Dir = "/dir/task"
+	r := &seeRunner{}
+	deadline := time.Now().Add(d)
+	rounds := 0
+	for time.Now().Before(deadline) && len(r.bad) == 0 && cs.Fail == "" {
+		rounds++
+		var wg sync.WaitGroup
+		for p := 0; p < 3; p++ {
+			var stages []*scheduler.Stage
+			for c := 0; c < 2; c++ {
+				for k := 0; k < 3; k++ {
+					id := fmt.Sprintf("p%dc%dk%d", p, c, k)
+					st := &scheduler.Stage{Name: id, Task: shared, Dir: "/dir/" + id,
+						Env: variables.FromMap(map[string]string{"WHO": id, "A": id}), Variables: variables.FromMap(map[string]string{"x": id})}
+					if k > 0 {
+						st.DependsOn = []string{fmt.Sprintf("p%dc%dk%d", p, c, k-1)}
+					}
+					stages = append(stages, st)
+				}
+			}
+			g, err := scheduler.NewExecutionGraph(stages...)
+			if err != nil {
+				cs.Fail, cs.Sig = err.Error(), "c08-crash"
+				break
+			}
+			sd := scheduler.NewScheduler(r)
+			sd.VerifSetPause(0)
+			wg.Add(1)
+			go func() { defer wg.Done(); sd.Schedule(g) }()
+		}
+		wg.Wait()
+		if a, _ := shared.Env.Get("A").(string); a != "task" || shared.Dir != "/dir/task" || shared.Variables.Get("x") != "task" {
+			r.mu.Lock()
+			r.bad = append(r.bad, fmt.Sprintf("after round %d the shared task itself has env A=%q, variable x=%v, dir %q", rounds, a, shared.Variables.Get("x"), shared.Dir))
+			r.mu.Unlock()
+		}
+	}
+	cs.Impl = fmt.Sprintf("rounds=%d executions=%d", rounds, r.n)
+	if len(r.bad) > 0 && cs.Fail == "" {
+		cs.Fail, cs.Sig = r.bad[0], "c08-leak"
+	}
+	col.Add(cs)
+}
+
 func runC08(col *Collector, tier string, seed int64) {
 	withEnvCase(col)
+	stageCopyStressCase(col, map[bool]time.Duration{false: 2 * time.Second, true: 12 * time.Second}[tier == "thorough"])
 	rng := rand.New(rand.NewSource(seed))
 	col.res.Rule = "2..6 stages sharing one task, each with its own subset of env names {A,B}, variables {x,y} and dir override over task-level settings, in every dependency arrangement on <=4 stages (parallel / chain / mixed; all DAGs), " +
 		"built as Stage values and through internal/config (buildPipeline), pipeline run 1-2 times with the real runner, followed by a direct run of the task; every execution prints what it sees. non-trivial = all; distinct = distinct specifications"
